@@ -37,6 +37,7 @@ type FuncContract struct {
 	Extern   bool // assumed contract on a function outside the verified set
 	Trusted  string
 	Requires []*Clause
+	Uses     []string // global invariants assumed at entry: "<pkg name>.<label of an ensures of that package's init>"
 	Ensures  []*Clause
 	Modifies []string
 	Loops    []*LoopContract
@@ -95,7 +96,7 @@ type ContractFile struct {
 	NClauses int
 }
 
-var keywordRe = regexp.MustCompile(`^(func|extern|spec|pred|lemma|axiom|requires|ensures|invariant|decreases|loop|modifies|assert|trusted|vars|assume|call|exec|conclude|use|let|order|elems|recv|wf|less|key)\b`)
+var keywordRe = regexp.MustCompile(`^(func|extern|spec|pred|lemma|axiom|requires|ensures|invariant|decreases|loop|modifies|assert|trusted|vars|assume|call|exec|conclude|uses|use|let|order|elems|recv|wf|less|key)\b`)
 var labelRe = regexp.MustCompile(`^([A-Za-z_][A-Za-z0-9_.]*):([^:].*)$`)
 
 func ParseContractFile(path, pkg string) (*ContractFile, error) {
@@ -279,6 +280,12 @@ func ParseContractFile(path, pkg string) (*ContractFile, error) {
 			case "assert":
 				cur.Asserts = append(cur.Asserts, c)
 			}
+		case "uses":
+			if cur == nil {
+				return nil, fmt.Errorf("%s:%d: uses outside func", path, it.line)
+			}
+			cur.Uses = append(cur.Uses, strings.Fields(rest)...)
+			cf.NClauses++
 		case "trusted":
 			if cur == nil {
 				return nil, fmt.Errorf("%s:%d: trusted outside func", path, it.line)
